@@ -760,6 +760,13 @@ class C07(Property):
                 "init": {"t": t0, "pos": pts[0], "ori": th, "vel": step * 10, "acc": 0.0, "yaw": 0.0, "slip": 0.0},
                 "pred": {"kind": "traj", "states": [{"cls": "ks", "t": t0 + i, "pos": pts[i], "ori": th,
                                                      "vel": step * 10, "steer": 0.0} for i in range(1, n + 1)]}}
+        if rng.chance(0.15) and net["lanelets"]:
+            # a vehicle with a long prediction (tens of states) that travels across several lanelets: whatever the
+            # library does per batch / chunk / above a size threshold only shows on horizons of this length
+            spec = gen.gen_obstacle(rng, ids.take(), net, role="dynamic", shape_kinds=("rect", "poly"), on_road=1.0,
+                                    state_cls=rng.choice(["ks", "st"]), horizon=rng.randint(10, 36),
+                                    t0=rng.randint(0, 2))
+            obstacles["hauler"] = spec
         late = []
         if len(net["lanelets"]) >= 2 and rng.chance(0.35):
             # some lanelets of the map only join while the run is under way (obstacles were placed with them in mind)
